@@ -15,6 +15,11 @@ to_tensor() and runs one battery:
   evol   evolution_step_ with non-binding opts_svd for EnvNTU (6 clusters), EnvBP (3 kinds), EnvCTM: dense state after
          the step vs the dense gates applied to the dense state (up to normalisation); reported truncation errors
 
+In bmps / ctm, measure_2site is also called on explicit (xrange, yrange) sub-windows (always one with >= 3 boundary steps
+and an open edge inside the lattice when the lattice allows it) and with explicit pair lists (even operators judged,
+odd ones only recorded); measure_nn also in its dict / bond-list / per-site-dict forms with reversed or shuffled bond
+order and a different operator pair per bond.  Everything is compared
+
 against  <psi| O1_{s1} O2_{s2} ... |psi> / <psi|psi>  with explicit Jordan-Wigner strings (vmon.pepsref).
 """
 from __future__ import annotations
